@@ -265,6 +265,18 @@ def handle (line : String) : String :=
     | _, _, _ => "bad-op"
   | "invx" :: rest => handleInv rest
   | "inv" :: rest => handleInv rest
+  | "bnd" :: tag :: rest =>
+    let (l, cr) := splitBar rest
+    match l.mapM (fun t => (t.splitOn ":").mapM parseVal), criteriaOf cr with
+    | some rows, some c =>
+      let bits := tfBits c rows
+      match buildCheck schema c with
+      | some e => s!"C{errName e} {bits}"
+      | none =>
+        let b := keyBounds (tagIndex tag) c
+        s!"{b.1} {b.2} {bits}"
+    | _, _ => "bad-op"
+  | "mpart" :: _ => "-"
   | "part" :: _ => "-"
   | "partx" :: _ => "-"
   | "sum" :: _ => "-"
